@@ -185,3 +185,31 @@ def time_string(t_ms, fraction=True):
     if fraction:
         s += '.%06d' % d.microsecond
     return s
+
+
+def lattice_twin(R, region):
+    """A second lattice with the same spacing, number of cells and lon/lat extent but a different set of cells
+    (one cell moved into a hole, or - if there is no hole - none: returns None). Anything keyed by such a summary
+    of a region instead of its cells confuses the two."""
+    if region['kind'] != 'cart':
+        return None
+    xs = [o[0] for o in region['origins']]
+    ys = [o[1] for o in region['origins']]
+    protected = {(min(xs), min(ys)), (max(xs), max(ys)), (min(xs), max(ys)), (max(xs), min(ys))}
+    movable = [o for o in region['origins'] if tuple(o) not in protected]
+    # the twin must keep the extent: only move a cell whose row and column stay occupied
+    holes = list(region['holes'])
+    if not movable or not holes:
+        return None
+    R.shuffle(movable)
+    for cell in movable:
+        hole = R.choice(holes)
+        new_cells = [o for o in region['origins'] if o != cell] + [hole]
+        nx_ = {o[0] for o in new_cells}
+        ny_ = {o[1] for o in new_cells}
+        if nx_ == set(xs) and ny_ == set(ys):
+            t = dict(region)
+            t['origins'] = new_cells
+            t['holes'] = [h for h in holes if h != hole] + [cell]
+            return t
+    return None
